@@ -120,8 +120,10 @@ def gen_case(rng, cfg):
     logic = cfg['logic']
     atoms = gen.ATOM_POOL[:cfg['natoms']]
     nmax = cfg['nmax']
-    K = gen.gen_abstract_kripke(rng, nmax, atoms, cfg['density'],
-                                cfg['shape'])
+    shape = cfg['shape']
+    if cfg['fair'] and cfg.get('fairfriendly'):
+        shape = 'fairfriendly'
+    K = gen.gen_abstract_kripke(rng, nmax, atoms, cfg['density'], shape)
     f = gen.gen_formula(rng, logic, atoms, cfg['depth'], cfg['tmax'],
                         cfg.get('pconst', 0.12))
     F = None
@@ -209,6 +211,7 @@ def gen_plan(seed, logic_mix):
         'pconst': rng.choice([0.05, 0.12, 0.3]),
         'fair': fair,
         'uniform_loops': rng.random() < 0.5,
+        'fairfriendly': rng.random() < 0.5,
         'kinds': kinds,
         'families': rng.sample(gen.FAMILIES, 3),
         'k': 6,
